@@ -14,8 +14,24 @@ sys.path.insert(0, sys.argv[1])
 import logging
 logging.disable(logging.CRITICAL)
 entry = sys.argv[2]
+declare = entry.endswith("+decl")
+entry = entry.split("+")[0]
 __import__(entry)
 from dali import command, frame
+if declare:
+    # an application declaring classes of its own on top of the library's, the way the library's own modules do it: an
+    # abstract vendor event base without an instance type, a vendor event with one, a vendor command
+    from dali.device import general as _G
+    try:
+        class _VendorEvent(_G._Event):
+            pass
+        class VendorEvent(_VendorEvent):
+            _instance_type = 29
+            _event_info = 0
+        class VendorThing(command.Command):
+            pass
+    except Exception:
+        pass
 jobs = json.loads(sys.argv[3])
 out = []
 for kind, a, b in jobs:
@@ -60,7 +76,10 @@ def decode_records(rows):
     # device-scheme events of instance types 1, 3, 4 (short address 5) and instance-scheme events
     jobs24 = [["dec24", ((5 << 9) | (t << 2) | d) & 0xFFFF, obs] for t in (1, 3, 4) for d in (0, 1, 2, 3)]
     recs = []
-    for entry, jobs in (("dali.gear.general", jobs16), ("dali.driver.hid", jobs16), ("dali.device.general", jobs24)):
+    # device/instance-scheme events (no map: ambiguous), also after the application has declared classes of its own
+    jobs24a = jobs24 + [["dec24", ((5 << 9) | 0x80 | (n << 2) | d) & 0xFFFF, obs] for n in (0, 2, 31) for d in (0, 3)]
+    for entry, jobs in (("dali.gear.general", jobs16), ("dali.driver.hid", jobs16), ("dali.device.general", jobs24),
+                        ("dali.device.general+decl", jobs24a)):
         p = subprocess.run([sys.executable, "-c", SCRIPT, core.REPO, entry, json.dumps(jobs)], stdout=subprocess.PIPE,
                            stderr=subprocess.PIPE, text=True, timeout=300)
         if p.returncode != 0:
